@@ -32,7 +32,7 @@ func (r *RNG) Shuffle(n int, swap func(i, j int)) {
 		swap(i, r.Intn(i+1))
 	}
 }
-func pick[T any](r *RNG, xs []T) T      { return xs[r.Intn(len(xs))] }
+func pick[T any](r *RNG, xs []T) T { return xs[r.Intn(len(xs))] }
 
 // ---- rule trees ----
 const (
